@@ -262,7 +262,12 @@ func httpSend(host string, raw []byte) (status int, body []byte) {
 	defer c.Close()
 	c.Write(raw)
 	c.SetReadDeadline(time.Now().Add(1500 * time.Millisecond))
-	resp, err := http.ReadResponse(bufio.NewReader(c), nil)
+	br := bufio.NewReader(c)
+	resp, err := http.ReadResponse(br, nil)
+	for err == nil && resp.StatusCode == 100 {
+		// the interim answer to "Expect: 100-continue": the real one follows
+		resp, err = http.ReadResponse(br, nil)
+	}
 	if err != nil {
 		return 0, nil
 	}
@@ -306,6 +311,11 @@ func TestHTTPDeclarations(t *testing.T) {
 		req, isCall := buildRequest(size, seed, rapid.Bool().Draw(rt, "call"))
 		var raw bytes.Buffer
 		fmt.Fprintf(&raw, "%s / HTTP/1.1\r\nHost: %s\r\nConnection: close\r\n", method, u.Host)
+		expect := method == "POST" && rapid.IntRange(0, 3).Draw(rt, "expectContinue") == 0
+		if expect {
+			// what curl and other clients send ahead of larger bodies
+			raw.WriteString("Expect: 100-continue\r\n")
+		}
 		delivered := req // what a conforming server takes as the body
 		switch decl {
 		case "truthful":
@@ -327,7 +337,7 @@ func TestHTTPDeclarations(t *testing.T) {
 			fmt.Fprintf(&raw, "Content-Length: %d\r\n\r\n", d)
 			raw.Write(req)
 		}
-		canon := fmt.Sprintf("%s server MaxRequestLength=%d: %s with %d body bytes, length %s, call=%v seed=%d", kind, limit, method, size, decl, isCall, seed)
+		canon := fmt.Sprintf("%s server MaxRequestLength=%d: %s with %d body bytes, length %s, expect-continue=%v, call=%v seed=%d", kind, limit, method, size, decl, expect, isCall, seed)
 		ev.S.Begin("http-declarations", canon)
 		serial.Lock()
 		defer serial.Unlock()
@@ -357,7 +367,7 @@ func TestHTTPDeclarations(t *testing.T) {
 		if len(delivered) > limit {
 			rel = "over"
 		}
-		ev.S.Case("http-declarations", canon, true, "http="+kind+"/"+decl+"/"+rel, "http-method="+method)
+		ev.S.Case("http-declarations", canon, true, "http="+kind+"/"+decl+"/"+rel, "http-method="+method, fmt.Sprintf("http-expect-continue=%v", expect))
 		report(rt, "http-declarations", "TestHTTPDeclarations", canon, problem)
 	})
 }
